@@ -445,4 +445,425 @@ theorem qsolve_none' (f m a b : Nat) (hF : FrobFix f m) (hodd : m % 2 = 1) (hfo 
         rfl
       · rw [if_neg htr] at h; cases h
 
+/-! ## ppMinPoly -/
+
+/-- invariant of the Euclid loop of ppMinPoly (a' = the trimmed sequence word, X = x^(2l)) -/
+structure MPInv (l a' aa bb da db : Nat) : Prop where
+  c1 : Cong (2 ^ (2 * l)) (clmul da a') aa
+  c2 : Cong (2 ^ (2 * l)) (clmul db a') bb
+  da0 : da ≠ 0
+  bb0 : bb ≠ 0
+  deg : da.log2 + bb.log2 = 2 * l
+  dbl : db < 2 ^ da.log2
+  aal : aa < 2 ^ bb.log2
+  bbl : l ≤ bb.log2
+  det : clmul da bb ^^^ clmul db aa = 2 ^ (2 * l)
+
+omit hf in
+theorem cong_mul_left {md x y : Nat} (c : Nat) (h : Cong md x y) :
+    Cong md (clmul c x) (clmul c y) := by
+  rw [clmul_comm c x, clmul_comm c y]; exact cong_mul_right c h
+
+omit hf in
+theorem mpInv_step {l a' aa bb da db : Nat} (h : MPInv l a' aa bb da db) (haa : aa ≠ 0)
+    (hdeg : aa.log2 + 1 > l) :
+    MPInv l a' (pdivmod bb aa).2 aa (db ^^^ clmul (pdivmod bb aa).1 da) da := by
+  obtain ⟨c1, c2, da0, bb0, deg, dbl, aal, bbl, det⟩ := h
+  obtain ⟨hq, hr⟩ := pdivmod_spec bb aa haa
+  generalize (pdivmod bb aa).1 = q at *
+  generalize (pdivmod bb aa).2 = r at *
+  -- q ≠ 0 and deg q = deg bb - deg aa
+  have hq0 : q ≠ 0 := by
+    rintro rfl
+    rw [zero_clmul, Nat.zero_xor] at hq
+    subst hq
+    have : 2 ^ aa.log2 ≤ 2 ^ r.log2 :=
+      Nat.pow_le_pow_right (by decide) (Nat.le_of_lt ((Nat.log2_lt haa).2 aal))
+    have := Nat.log2_self_le bb0
+    omega
+  have hqa0 := clmul_ne_zero hq0 haa
+  have hlq := log2_clmul hq0 haa
+  have hrl : r < 2 ^ (clmul q aa).log2 := by
+    rw [hlq]
+    exact Nat.lt_of_lt_of_le hr (Nat.pow_le_pow_right (by decide) (Nat.le_add_left _ _))
+  have hbbl : bb.log2 = q.log2 + aa.log2 := by
+    have := (log2_xor_of_lt hqa0 hrl).2
+    rw [Nat.xor_comm, hq, hlq] at this
+    exact this
+  have hqd0 := clmul_ne_zero hq0 da0
+  have hlqd := log2_clmul hq0 da0
+  have hq1 : 1 ≤ q.log2 := by
+    have := (Nat.log2_lt haa).2 aal
+    omega
+  have hdbl' : db < 2 ^ (clmul q da).log2 := by
+    rw [hlqd]
+    exact Nat.lt_of_lt_of_le dbl (Nat.pow_le_pow_right (by decide) (Nat.le_add_left _ _))
+  obtain ⟨hn0, hnl⟩ := log2_xor_of_lt hqd0 hdbl'
+  refine ⟨?_, c1, hn0, haa, ?_, ?_, hr, by omega, ?_⟩
+  · -- (db + q da) a' ≡ bb + q aa = r
+    rw [xor_clmul]
+    have h1 : Cong (2 ^ (2 * l)) (clmul (clmul q da) a') (clmul q aa) := by
+      rw [clmul_assoc]; exact cong_mul_left q c1
+    have h2 := cong_xor c2 h1
+    have e : bb ^^^ clmul q aa = r := by
+      rw [← hq, Nat.xor_comm (clmul q aa) r, Nat.xor_assoc, Nat.xor_self, Nat.xor_zero]
+    rw [e] at h2
+    exact h2
+  · rw [hnl, hlqd]; omega
+  · rw [hnl, hlqd]
+    calc da < 2 ^ (da.log2 + 1) := Nat.lt_log2_self
+      _ ≤ 2 ^ (q.log2 + da.log2) := Nat.pow_le_pow_right (by decide) (by omega)
+  · -- determinant
+    have e : clmul q (clmul da aa) = clmul da (clmul q aa) := by
+      rw [← clmul_assoc, clmul_comm q da, clmul_assoc]
+    rw [xor_clmul, ← det, ← hq, clmul_xor, clmul_assoc, e]
+    apply Nat.eq_of_testBit_eq; intro i; simp only [Nat.testBit_xor]
+    cases (clmul db aa).testBit i <;> cases (clmul da (clmul q aa)).testBit i <;>
+      cases (clmul da r).testBit i <;> rfl
+
+omit hf in
+theorem mpLoop_spec (l a' : Nat) : ∀ (fu aa bb da db : Nat), MPInv l a' aa bb da db →
+    (aa = 0 ∨ aa.log2 + 1 ≤ fu) →
+    ∃ aa' bb' db', MPInv l a' aa' bb' (ppMinPolyLoop l fu aa bb da db) db'
+      ∧ (aa' = 0 ∨ aa'.log2 + 1 ≤ l) := by
+  intro fu
+  induction fu with
+  | zero =>
+    intro aa bb da db h hfu
+    exact ⟨aa, bb, db, h, Or.inl (by omega)⟩
+  | succ fu ih =>
+    intro aa bb da db h hfu
+    unfold ppMinPolyLoop
+    by_cases hc : aa ≠ 0 ∧ aa.log2 + 1 > l
+    · rw [if_pos hc]
+      simp only []
+      have hs := mpInv_step h hc.1 hc.2
+      apply ih _ _ _ _ hs
+      have hr := (pdivmod_spec bb aa hc.1).2
+      by_cases h0 : (pdivmod bb aa).2 = 0
+      · exact Or.inl h0
+      · right
+        have := (Nat.log2_lt h0).2 hr
+        omega
+    · rw [if_neg hc]
+      refine ⟨aa, bb, db, h, ?_⟩
+      by_cases h0 : aa = 0
+      · exact Or.inl h0
+      · right
+        have : ¬ aa.log2 + 1 > l := fun h' => hc ⟨h0, h'⟩
+        omega
+
+omit hf in
+theorem cong_two_pow_mod {k u r : Nat} (h : Cong (2 ^ k) u r) (hr : r < 2 ^ k) : u % 2 ^ k = r := by
+  obtain ⟨j, hj⟩ := h
+  rw [clmul_two_pow, Nat.shiftLeft_eq] at hj
+  have hu : u = r ^^^ j * 2 ^ k := by
+    rw [← hj]
+    apply Nat.eq_of_testBit_eq; intro i; simp only [Nat.testBit_xor]
+    cases u.testBit i <;> cases r.testBit i <;> rfl
+  rw [hu, Nat.xor_mod_two_pow, Nat.mul_mod_left, Nat.xor_zero, Nat.mod_eq_of_lt hr]
+
+omit hf in
+theorem minPolyV_spec' (a l : Nat) (hl : 1 ≤ l) :
+    ppMinPolyV a l ≠ 0 ∧ (ppMinPolyV a l).log2 ≤ l
+      ∧ clmul (ppMinPolyV a l) (a % 2 ^ (2 * l)) % 2 ^ (2 * l) < 2 ^ l := by
+  have hX0 : (2 : Nat) ^ (2 * l) ≠ 0 := Nat.pos_iff_ne_zero.1 (Nat.two_pow_pos _)
+  have hinit : MPInv l (a % 2 ^ (2 * l)) (a % 2 ^ (2 * l)) (2 ^ (2 * l)) 1 0 :=
+    ⟨by rw [one_clmul]; exact cong_refl _ _,
+     ⟨1, by rw [zero_clmul, one_clmul, Nat.zero_xor]⟩,
+     by decide, hX0, by rw [Nat.log2_two_pow, show Nat.log2 1 = 0 by decide]; simp,
+     by rw [show Nat.log2 1 = 0 by decide]; decide,
+     by rw [Nat.log2_two_pow]; exact Nat.mod_lt _ (Nat.two_pow_pos _),
+     by rw [Nat.log2_two_pow]; omega,
+     by rw [one_clmul, zero_clmul, Nat.xor_zero]⟩
+  have hfu : a % 2 ^ (2 * l) = 0 ∨ (a % 2 ^ (2 * l)).log2 + 1 ≤ 2 * l + 1 := by
+    by_cases h0 : a % 2 ^ (2 * l) = 0
+    · exact Or.inl h0
+    · right
+      have := (Nat.log2_lt h0).2 (Nat.mod_lt a (Nat.two_pow_pos (2 * l)))
+      omega
+  obtain ⟨aa', bb', db', hI, hex⟩ := mpLoop_spec l _ _ _ _ _ _ hinit hfu
+  change MPInv l _ aa' bb' (ppMinPolyV a l) db' at hI
+  have haal : aa' < 2 ^ l := by
+    rcases hex with h | h
+    · rw [h]; exact Nat.two_pow_pos _
+    · by_cases h0 : aa' = 0
+      · rw [h0]; exact Nat.two_pow_pos _
+      · exact (Nat.log2_lt h0).1 (by omega)
+  refine ⟨hI.da0, by have := hI.deg; have := hI.bbl; omega, ?_⟩
+  have hlt : aa' < 2 ^ (2 * l) :=
+    Nat.lt_of_lt_of_le haal (Nat.pow_le_pow_right (by decide) (by omega))
+  rw [cong_two_pow_mod hI.c1 hlt]
+  exact haal
+
+/-! ## ppIsIrred = Spec.pIsIrred -/
+
+/-- one Ben-Or test of the specification: from y to y' = y^2 mod a, gcd(a, y' + x) = 1 -/
+def specStep (a x : Nat) (st : Nat × Bool) : Nat × Bool :=
+  if !st.2 then st else
+  let y := pmod (psqr st.1) a
+  (y, pgcd a (y ^^^ x) == 1)
+
+/-- the specification loop as a recursion: k tests starting after y -/
+def specLoop (a x : Nat) : Nat → Nat → Bool
+  | 0, _ => true
+  | k + 1, y =>
+    let y' := pmod (psqr y) a
+    if pgcd a (y' ^^^ x) = 1 then specLoop a x k y' else false
+
+omit hf in
+theorem foldl_const {σ : Type} (g : σ → σ) (l : List Nat) (s : σ) :
+    l.foldl (fun st _ => g st) s = Nat.iterate g l.length s := by
+  induction l generalizing s with
+  | nil => rfl
+  | cons x xs ih => simp only [List.foldl_cons, List.length_cons, Function.iterate_succ, Function.comp]; exact ih _
+
+omit hf in
+theorem iterate_false (a x : Nat) (k y : Nat) : (Nat.iterate (specStep a x) k (y, false)).2 = false := by
+  induction k with
+  | zero => rfl
+  | succ k ih => rw [Function.iterate_succ, Function.comp]; exact ih
+
+omit hf in
+theorem iterate_spec (a x : Nat) (k y : Nat) :
+    (Nat.iterate (specStep a x) k (y, true)).2 = specLoop a x k y := by
+  induction k generalizing y with
+  | zero => rfl
+  | succ k ih =>
+    rw [Function.iterate_succ, Function.comp]
+    unfold specLoop
+    have e : specStep a x (y, true) = (pmod (psqr y) a, pgcd a (pmod (psqr y) a ^^^ x) == 1) := rfl
+    rw [e]
+    by_cases hc : pgcd a (pmod (psqr y) a ^^^ x) = 1
+    · simp only [hc, beq_self_eq_true, if_true]; exact ih _
+    · have hb : (pgcd a (pmod (psqr y) a ^^^ x) == 1) = false := by simpa using hc
+      simp only [hb, hc, if_false]; exact iterate_false a x k _
+
+omit hf in
+theorem isPGcd_cong {g a u v : Nat} (h : Cong a u v) (hg : IsPGcd g u a) : IsPGcd g a v := by
+  obtain ⟨k, hk⟩ := h
+  have hv : v = u ^^^ clmul k a := by
+    rw [← hk]; apply Nat.eq_of_testBit_eq; intro i; simp only [Nat.testBit_xor]
+    cases u.testBit i <;> cases v.testBit i <;> rfl
+  have hu : u = v ^^^ clmul k a := by
+    rw [← hk]; apply Nat.eq_of_testBit_eq; intro i; simp only [Nat.testBit_xor]
+    cases u.testBit i <;> cases v.testBit i <;> rfl
+  obtain ⟨g1, g2, g3⟩ := hg
+  refine ⟨g2, by rw [hv]; exact pdvd_xor g1 (pdvd_mul k g2), fun d da dv => g3 d ?_ da⟩
+  rw [hu]; exact pdvd_xor dv (pdvd_mul k da)
+
+omit hf in
+/-- the test of one turn of the C loop equals the test of the specification -/
+theorem irred_test (a h : Nat) (ha : 1 < a) :
+    (¬ (h ^^^ 2 = 0) ∧ ¬ (ppGCDV (h ^^^ 2) a ≠ 1)) ↔ pgcd a (pmod h a ^^^ pmod 2 a) = 1 := by
+  have ha0 : a ≠ 0 := by omega
+  have hc : Cong a (h ^^^ 2) (pmod h a ^^^ pmod 2 a) :=
+    cong_xor (cong_symm (cong_pmod ha0 h)) (cong_symm (cong_pmod ha0 2))
+  by_cases h0 : h ^^^ 2 = 0
+  · have hI : IsPGcd a a (pmod h a ^^^ pmod 2 a) := by
+      have : IsPGcd a (h ^^^ 2) a := by
+        rw [h0]; exact ⟨pdvd_zero a, pdvd_refl a, fun d _ h2 => h2⟩
+      exact isPGcd_cong hc this
+    have := isPGcd_unique (pgcd_spec a (pmod h a ^^^ pmod 2 a)) hI
+    constructor
+    · intro hh; exact absurd h0 hh.1
+    · intro hh; omega
+  · have h1 := gcdV_eq_pgcd h0 ha0
+    have hI := isPGcd_cong hc (pgcd_spec (h ^^^ 2) a)
+    have := isPGcd_unique (pgcd_spec a (pmod h a ^^^ pmod 2 a)) hI
+    rw [h1, ← this]
+    constructor
+    · intro hh; exact not_not.1 hh.2
+    · intro hh; exact ⟨h0, not_not.2 hh⟩
+
+omit hf in
+theorem irredLoop_eq (a : Nat) (ha : 1 < a) : ∀ (k h y : Nat), pmod h a = pmod (psqr y) a →
+    ppIsIrredLoop a k h = specLoop a (pmod 2 a) k y := by
+  have ha0 : a ≠ 0 := by omega
+  intro k
+  induction k with
+  | zero => intro h y _; rfl
+  | succ k ih =>
+    intro h y hy
+    unfold ppIsIrredLoop specLoop
+    simp only []
+    have ht := irred_test a h ha
+    rw [hy] at ht
+    by_cases hc : pgcd a (pmod (psqr y) a ^^^ pmod 2 a) = 1
+    · obtain ⟨t1, t2⟩ := ht.2 hc
+      rw [if_neg t1, if_neg t2, if_pos hc]
+      have hh : h ^^^ 2 ^^^ 2 = h := by rw [Nat.xor_assoc, Nat.xor_self, Nat.xor_zero]
+      rw [hh]
+      cases k with
+      | zero => rfl
+      | succ k' =>
+        apply ih
+        rw [if_pos (by omega), pmod_of_lt ha0 (pmod_lt ha0 _), ← hy]
+        unfold psqr
+        rw [pmod_mul_left ha0, pmod_mul_right ha0]
+    · rw [if_neg hc]
+      by_cases t1 : h ^^^ 2 = 0
+      · rw [if_pos t1]
+      · rw [if_neg t1]
+        have t2 : ppGCDV (h ^^^ 2) a ≠ 1 := by
+          intro h'
+          exact hc (ht.1 ⟨t1, not_not.2 h'⟩)
+        rw [if_pos t2]
+
+omit hf in
+theorem isIrredV_eq' (a : Nat) : ppIsIrredV a = pIsIrred a := by
+  unfold ppIsIrredV pIsIrred pdeg
+  by_cases h0 : a = 0
+  · subst h0; rfl
+  · rw [if_neg h0]
+    by_cases h1 : a = 1
+    · subst h1; rfl
+    · have ha : 1 < a := by omega
+      rw [if_neg (by omega)]
+      have hl : a.log2 ≠ 0 := by
+        have := (Nat.le_log2 h0 (k := 1)).2 (by omega)
+        omega
+      obtain ⟨n, hn⟩ := Nat.exists_eq_succ_of_ne_zero hl
+      rw [hn]
+      simp only []
+      have := foldl_const (specStep a (pmod 2 a)) (List.range ((n + 1) / 2)) (pmod 2 a, true)
+      rw [List.length_range] at this
+      change _ = ((List.range ((n + 1) / 2)).foldl (fun st _ => specStep a (pmod 2 a) st) (pmod 2 a, true)).2
+      rw [this, iterate_spec]
+      apply irredLoop_eq a ha
+      unfold psqr
+      have ha0 : a ≠ 0 := h0
+      rw [pmod_mul_left ha0, pmod_mul_right ha0]
+      rfl
+
+/-! ### minimality of the result of ppMinPoly -/
+
+omit hf in
+theorem clmul_lt_pow {u v s : Nat} (h : u = 0 ∨ v = 0 ∨ u.log2 + v.log2 < s) : clmul u v < 2 ^ s := by
+  rcases h with h | h | h
+  · subst h; rw [zero_clmul]; exact Nat.two_pow_pos _
+  · subst h; rw [clmul_zero]; exact Nat.two_pow_pos _
+  · by_cases hu : u = 0
+    · subst hu; rw [zero_clmul]; exact Nat.two_pow_pos _
+    by_cases hv : v = 0
+    · subst hv; rw [clmul_zero]; exact Nat.two_pow_pos _
+    exact (Nat.log2_lt (clmul_ne_zero hu hv)).1 (by rw [log2_clmul hu hv]; exact h)
+
+omit hf in
+theorem log2_lt_of_lt_pow {x l : Nat} (h : x < 2 ^ l) (hx : x ≠ 0) : x.log2 < l :=
+  (Nat.log2_lt hx).2 h
+
+omit hf in
+/-- a multiple of x^k below x^k is 0 -/
+theorem eq_of_cong_lt {k u v : Nat} (h : Cong (2 ^ k) u v) (hu : u < 2 ^ k) (hv : v < 2 ^ k) : u = v := by
+  obtain ⟨j, hj⟩ := h
+  rw [clmul_two_pow, Nat.shiftLeft_eq] at hj
+  have hlt : u ^^^ v < 2 ^ k := Nat.xor_lt_two_pow hu hv
+  have hj0 : j = 0 := by
+    rcases Nat.eq_zero_or_pos j with h0 | h0
+    · exact h0
+    · have : 2 ^ k ≤ j * 2 ^ k := Nat.le_mul_of_pos_left _ h0
+      omega
+  subst hj0
+  rw [Nat.zero_mul] at hj
+  exact xor_eq_zero_iff.1 hj
+
+omit hf in
+theorem clmul_right_cancel {u v c : Nat} (hc : c ≠ 0) (h : clmul u c = clmul v c) : u = v := by
+  have : clmul (u ^^^ v) c = 0 := by rw [xor_clmul, h, Nat.xor_self]
+  rcases clmul_eq_zero this with h1 | h1
+  · exact xor_eq_zero_iff.1 h1
+  · exact absurd h1 hc
+
+omit hf in
+/-- uniqueness for the final row of the Euclid scheme: every g with deg g ≤ l and
+    g·a' = r + k·x^{2l}, deg r < l, is a polynomial multiple of da -/
+theorem mp_minimal {l a' aa bb da db g r : Nat} (hI : MPInv l a' aa bb da db) (haa : aa < 2 ^ l)
+    (_hg0 : g ≠ 0) (hgl : g.log2 ≤ l) (hr : r < 2 ^ l) (hc : Cong (2 ^ (2 * l)) (clmul g a') r) :
+    ∃ h', g = clmul h' da := by
+  obtain ⟨c1, c2, da0, bb0, deg, dbl, aal, bbl, det⟩ := hI
+  have hdal : da.log2 ≤ l := by omega
+  have hX0 : (2 : Nat) ^ (2 * l) ≠ 0 := Nat.pos_iff_ne_zero.1 (Nat.two_pow_pos _)
+  -- A: g·aa = da·r
+  have hA : clmul g aa = clmul da r := by
+    apply eq_of_cong_lt (k := 2 * l)
+    · have h1 : Cong (2 ^ (2 * l)) (clmul g aa) (clmul g (clmul da a')) :=
+        cong_mul_left g (cong_symm c1)
+      have h2 : Cong (2 ^ (2 * l)) (clmul da (clmul g a')) (clmul da r) := cong_mul_left da hc
+      have e : clmul g (clmul da a') = clmul da (clmul g a') := by
+        rw [← clmul_assoc, clmul_comm g da, clmul_assoc]
+      rw [e] at h1
+      exact cong_trans h1 h2
+    · apply clmul_lt_pow
+      by_cases h0 : aa = 0
+      · exact Or.inr (Or.inl h0)
+      · have := log2_lt_of_lt_pow haa h0
+        exact Or.inr (Or.inr (by omega))
+    · apply clmul_lt_pow
+      by_cases h0 : r = 0
+      · exact Or.inr (Or.inl h0)
+      · have := log2_lt_of_lt_pow hr h0
+        exact Or.inr (Or.inr (by omega))
+  -- C: h = g·bb + db·r is a multiple of x^{2l}
+  have hC : Cong (2 ^ (2 * l)) (clmul g bb ^^^ clmul db r) 0 := by
+    have h1 : Cong (2 ^ (2 * l)) (clmul g bb) (clmul g (clmul db a')) :=
+      cong_mul_left g (cong_symm c2)
+    have h2 : Cong (2 ^ (2 * l)) (clmul db r) (clmul db (clmul g a')) :=
+      cong_mul_left db (cong_symm hc)
+    have e : clmul g (clmul db a') = clmul db (clmul g a') := by
+      rw [← clmul_assoc, clmul_comm g db, clmul_assoc]
+    rw [e] at h1
+    have := cong_xor h1 h2
+    rwa [Nat.xor_self] at this
+  obtain ⟨h', hh'⟩ := hC
+  rw [Nat.xor_zero] at hh'
+  -- D: da·h = g·X
+  have hD : clmul da (clmul g bb ^^^ clmul db r) = clmul g (2 ^ (2 * l)) := by
+    rw [← det, clmul_xor, clmul_xor]
+    have e1 : clmul da (clmul g bb) = clmul g (clmul da bb) := by
+      rw [← clmul_assoc, clmul_comm da g, clmul_assoc]
+    have e2 : clmul da (clmul db r) = clmul g (clmul db aa) := by
+      rw [← clmul_assoc, clmul_comm da db, clmul_assoc, ← hA, ← clmul_assoc, clmul_comm db g,
+        clmul_assoc]
+    rw [e1, e2]
+  rw [hh', ← clmul_assoc] at hD
+  have := clmul_right_cancel hX0 hD
+  exact ⟨h', by rw [← this, clmul_comm]⟩
+
+omit hf in
+theorem minPolyV_minimal' (a l g r : Nat) (hl : 1 ≤ l) (hg0 : g ≠ 0) (hgl : g.log2 ≤ l)
+    (hr : r < 2 ^ l) (hc : Cong (2 ^ (2 * l)) (clmul g (a % 2 ^ (2 * l))) r) :
+    (∃ h', g = clmul h' (ppMinPolyV a l)) ∧ (ppMinPolyV a l).log2 ≤ g.log2 := by
+  have hX0 : (2 : Nat) ^ (2 * l) ≠ 0 := Nat.pos_iff_ne_zero.1 (Nat.two_pow_pos _)
+  have hinit : MPInv l (a % 2 ^ (2 * l)) (a % 2 ^ (2 * l)) (2 ^ (2 * l)) 1 0 :=
+    ⟨by rw [one_clmul]; exact cong_refl _ _,
+     ⟨1, by rw [zero_clmul, one_clmul, Nat.zero_xor]⟩,
+     by decide, hX0, by rw [Nat.log2_two_pow, show Nat.log2 1 = 0 by decide]; simp,
+     by rw [show Nat.log2 1 = 0 by decide]; decide,
+     by rw [Nat.log2_two_pow]; exact Nat.mod_lt _ (Nat.two_pow_pos _),
+     by rw [Nat.log2_two_pow]; omega,
+     by rw [one_clmul, zero_clmul, Nat.xor_zero]⟩
+  have hfu : a % 2 ^ (2 * l) = 0 ∨ (a % 2 ^ (2 * l)).log2 + 1 ≤ 2 * l + 1 := by
+    by_cases h0 : a % 2 ^ (2 * l) = 0
+    · exact Or.inl h0
+    · right
+      have := (Nat.log2_lt h0).2 (Nat.mod_lt a (Nat.two_pow_pos (2 * l)))
+      omega
+  obtain ⟨aa', bb', db', hI, hex⟩ := mpLoop_spec l _ _ _ _ _ _ hinit hfu
+  change MPInv l _ aa' bb' (ppMinPolyV a l) db' at hI
+  have haal : aa' < 2 ^ l := by
+    rcases hex with h | h
+    · rw [h]; exact Nat.two_pow_pos _
+    · by_cases h0 : aa' = 0
+      · rw [h0]; exact Nat.two_pow_pos _
+      · exact (Nat.log2_lt h0).1 (by omega)
+  obtain ⟨h', hh'⟩ := mp_minimal hI haal hg0 hgl hr hc
+  refine ⟨⟨h', hh'⟩, ?_⟩
+  have hh0 : h' ≠ 0 := by
+    rintro rfl
+    rw [zero_clmul] at hh'
+    exact hg0 hh'
+  rw [hh', log2_clmul hh0 hI.da0]
+  omega
+
 end Bee2V.C05.Gf2
